@@ -3,9 +3,9 @@ import importlib.util, os
 _s = importlib.util.spec_from_file_location("rc", os.path.join(VERIF, "props", "_runtime_common.py")); rc = importlib.util.module_from_spec(_s); _s.loader.exec_module(rc)
 
 def harnesses(tier, findings):
-    masks = [0xF7, 0xAB, 0x00, 0x02, 0x13] if tier == "quick" else list(range(256))
+    masks = [0xF7, 0xAB, 0x00, 0x02, 0x13, 0x1B7, 0x123] if tier == "quick" else list(range(256)) + [0x100 | m for m in range(256) if (m & 0x21) == 0x21]
     ofm = [0x38, 0x04, 0x2e, 0x19] if tier == "quick" else [m for m in range(64) if m & 0x0c]
-    hs = [rc.api(H, VERIF, 2, 1, 2, 3, 900, name="api_lifecycle_m%02x" % m, excludes=["P2MASK=%d" % m]) for m in masks] + [
+    hs = [rc.api(H, VERIF, 2, 1, 2, 3, 900, name="api_lifecycle_m%03x" % m, excludes=["P2MASK=%d" % m]) for m in masks] + [
           ] + [rc.api(H, VERIF, 4, 1, 1, 3, 900, name="api_open_fault_on_switch_m%02x" % m, excludes=["OFM=%d" % m]) for m in ofm] + [
           rc.inst(H, VERIF, 2, 2, 1, 0, 1), rc.inst(H, VERIF, 2, 2, 0, 1, 0),
           # a device call failing in the first of two acquisitions (the fault programs of C09): stop once per start still holds
@@ -17,7 +17,7 @@ def harnesses(tier, findings):
 
 META = dict(
     level="model_checking",
-    bounds=dict(quick="whole runtime, one or two streams, call template configure start [trigger] [start again] stop|abort [configure with swapped devices] [start stop] shutdown: 5 of the 256 sub-programs in the quick tier, ALL 256 in the thorough tier, each run by CBMC; device-open fault during a device switch: 4 (thorough: all 48) choice patterns; plus 2-acquisition runs of one stream",
+    bounds=dict(quick="whole runtime, one or two streams, call template configure start [trigger] [start again] stop|abort [configure with swapped devices | configure without the second stream] [start stop] shutdown: 5 of the 256 sub-programs in the quick tier, ALL 256 in the thorough tier, each run by CBMC; device-open fault during a device switch: 4 (thorough: all 48) choice patterns; plus 2-acquisition runs of one stream",
                 thorough="same"),
     outside="client programs that are not sub-sequences of the template; fine-grained worker schedules (workers run atomically between create and join); the real device manager and dlopen (C stub); HAL-level protocol for arbitrary driver answers is C11",
     assumptions=["coarse thread model env/plat_coarse.c", "recording mock driver with protocol monitor (mock_devices.h)", "ring capacity interposed at build level"],
